@@ -1030,6 +1030,8 @@ class Interp:
                     rv = self.ev(r, env)
                     if isinstance(rv, K):
                         return (l.v == rv.v) == isinstance(test.ops[0], ast.Eq)
+                elif isinstance(r, ast.Dict) and r.keys and all(isinstance(x, ast.Constant) for x in r.keys):
+                    return (l.v in [x.value for x in r.keys]) == isinstance(test.ops[0], ast.In)
                 elif isinstance(r, (ast.Tuple, ast.List, ast.Set)) and all(isinstance(x, ast.Constant) for x in r.elts):
                     return (l.v in [x.value for x in r.elts]) == isinstance(test.ops[0], ast.In)
         if isinstance(test, ast.Compare) and len(test.ops) == 1 and isinstance(test.ops[0], (ast.Is, ast.IsNot)) and isinstance(test.comparators[0], ast.Constant) and test.comparators[0].value is None:
